@@ -1932,6 +1932,8 @@ class Interp:
             if cls in ('list', 'dict', 'tuple'):
                 return SV('bm', py=(obj, attr))
             pc = self.reg.pyclass(cls)
+            if cls == 'TextIOWrapper' and attr == 'read':
+                return SV('bm', py=(SV('file', py=obj), 'read'))
             if pc is not None:
                 d = inspect.getattr_static(pc, attr, _MISSING)
                 if isinstance(d, property):
@@ -2114,6 +2116,8 @@ class Interp:
         return self.getitem(obj, idx)
 
     def get_slice(self, obj: SV, lo, hi) -> SV:
+        if obj.k == 'val' and obj.T is not None and any(a[0] == 'str' for a in type_alternatives(obj.T)):
+            obj = mk_str(self.as_str(obj, 'slice'))
         if obj.k == 'str':
             n = z3.Length(obj.e)
             lo_e = self.clip(self.as_int(lo), n) if lo is not None else z3.IntVal(0)
@@ -2504,11 +2508,12 @@ class Interp:
         return z3.IntVal(tab[key][0])
 
     def call_abstract(self, ab, args) -> SV:
-        name, ret = ab
+        name, ret = ab[0], ab[1]
+        heap = ab[2] if len(ab) > 2 else True
         T = parse_type(ret)
         sort = {'str': S, 'bool': B, 'int': I}.get(T[0], Val)
         f = z3.Function('abs:' + name, *([Val] * len(args)), I, sort)
-        e = f(*[self.box(a) for a in args], self.heap_version())
+        e = f(*[z3.simplify(self.box(a)) for a in args], self.heap_version() if heap else z3.IntVal(0))
         if T[0] == 'str':
             return mk_str(e)
         if T[0] == 'bool':
@@ -2516,6 +2521,9 @@ class Interp:
         if T[0] == 'int':
             return mk_int(e)
         return self.unbox(e, T)
+
+    def box_source(self, src: SV):
+        return self.box(src)
 
     def in_spec_inline(self, con) -> bool:
         return False
